@@ -1,24 +1,27 @@
 /-
 C16 — same input and seed give the same output on any thread count and fit history.
 
-Three groups of theorems, all about the models of `SkNet/Model/ParFor.lean` and `SkNet/Model/Estimator.lean`
-(unbounded: any number of iterations, any schedule, any history, any conforming implementation):
+Theorems about the models of `SkNet/Model/ParFor.lean` and `SkNet/Model/Estimator.lean` (unbounded: any number of
+iterations, any schedule, any history, any conforming implementation):
 
- (A) parallel loops: a race-free loop ends in the same memory under every schedule, namely the memory of the
-     sequential execution (`raceFree_sound`); the syntactic check on a generated `prange` descriptor implies
-     race freedom of every conforming loop (`desc_raceFree_sound`), hence schedule independence
-     (`prange_schedule_independent`); an exact (integer) reduction does not depend on how the iterations are
-     split among threads nor on the order of combination (`reduction_chunks`, `reduction_perm`); the D-iteration
-     statement `fluid[j] += …` conforms to the pinned descriptor and loses an update (`diteration_not_deterministic`).
- (B) estimators: for every description that passes `coreOK` and every implementation conforming to it, the state
-     after `fit` on `x` at the end of *any* history of fits and `set_params` equals the state of a fresh object with
-     the current parameters after `fit` on `x` (`history_independent`); the pinned Louvain shape (generator
-     created in `__init__`) fails the check and a conforming implementation differs (`pinned_louvain_history_dependent`).
- (C) `check_random_state`: every branch table that passes `crsOK` maps *every* int seed to a new private generator
-     whose state depends on the seed only and leaves numpy's global generator alone (`check_random_state_private`).
+ (A) parallel loops: a race-free loop ends in the same memory and the same private registers under every schedule,
+     namely those of the sequential execution (`raceFree_sound`, `raceFree_eq_sequential`, `raceFree_regs`); the
+     syntactic check on a generated `prange` descriptor is sound and tight (`desc_raceFree_sound`, `desc_raceFree_tight`,
+     `prange_schedule_independent`, `indirect_update_not_deterministic`); an exact (integer) reduction does not depend on
+     schedule, chunking or order of combination (`reduction_*`); a float reduction is *not* covered: it fails the generated
+     obligation `Loop.deterministic`; the first loop of `push_pagerank`, event for event (`pushInit_*`).
+ (B) estimators: history independence for every description passing `coreOK` and every conforming implementation, over
+     histories of fits, fits that raised, and `set_params` on parameters stored unchanged (`history_independent`); the same
+     for the *flattened* description of an object with its attribute objects, which is what the generated obligation
+     `Est.staticOK` checks (`staticOK_implies_flat_coreOK`, `history_independent_flat`, `history_independent_seq`); tightness
+     (`coreOK_tight`); `set_params` on a canonicalised parameter is outside: full statement `history_independent_setparams_full`,
+     its negation, and the `_partial` theorem; random sources: `rerun_deterministic`, `uncontrolled_source_changes_draws`.
+ (C) `check_random_state` as an interpreter of its generated branch table (`check_random_state_private`, `_none_not_global`,
+     `_instance_same`).
 
-The obligations on the data generated from the working tree (`Generated/Prange.lean`, `Generated/EstimatorState.lean`)
-are decided through the driver on every run and kernel-checked by `Generated/C16Obligations.lean`.
+Witnesses about code that has since been repaired (pinned D-iteration loop, pinned Louvain seeding) are `example`s, not
+counted theorems. The obligations on the data generated from the working tree (`Generated/C16T<tree>.lean`) are decided
+through the driver on every run and kernel-checked by `Generated/C16T<tree>Ob.lean`.
 -/
 import SkNet.Lemmas.ParFor
 import SkNet.Lemmas.Estimator
@@ -69,7 +72,13 @@ theorem desc_raceFree_sound (l : Loop) (hl : l.raceFree = true) (fx : String →
   desc_raceFree l hl fx prog hconf
 
 /-- non-vacuity of `desc_raceFree_sound`: the descriptor passes, and a two-iteration instance conforms -/
-example : pushInitLoop.raceFree = true ∧ trianglesLoop.raceFree = true ∧ trianglesLoop.inexactReductions = [] := by decide
+example : pushInitLoop.deterministic = true ∧ trianglesLoop.deterministic = true := by decide
+
+/-- a reduction on a C `double` passes the race check (memory is schedule independent) but not the generated obligation
+    `Loop.deterministic`: the partial sums are combined in an order that depends on the thread count (the `reduction_*`
+    theorems are about exact integer addition only) -/
+example : ({ trianglesLoop with accs := [.reduction "total" "+" false] } : Loop).raceFree = true ∧
+    ({ trianglesLoop with accs := [.reduction "total" "+" false] } : Loop).deterministic = false := by decide
 
 /-- **Schedule independence of a checked `prange` loop.** -/
 theorem prange_schedule_independent (l : Loop) (hl : l.raceFree = true) (fx : String → Nat)
